@@ -352,6 +352,15 @@ def check_case(ctx, case):
                         tag = '[order-changes-distinct] ' if single_attr and set(got) <= set(Rp) and len(got) <= min(k, len(Rp)) else ''
                         msg = tag + '%s.random(%d) returned %r: expected %d rows drawn without repetition from %r' % (
                             d0, k, got, exp_len, sorted(pool.elements(), key=repr))
+                    if msg is None and b > 0 and b != k:
+                        # a second draw of another size in the same session (results of random() are never cacheable)
+                        got2 = norm(q0.random(b))
+                        gc2 = collections.Counter(got2)
+                        exp_len2 = min(b, sum(pool.values()))
+                        if len(got2) != exp_len2 or any(gc2[r] > pool.get(r, 0) for r in gc2):
+                            tag = '[order-changes-distinct] ' if single_attr and set(got2) <= set(Rp) and len(got2) <= min(b, len(Rp)) else ''
+                            msg = tag + '%s.random(%d) after .random(%d) in the same session returned %r: expected %d rows drawn ' \
+                                        'without repetition from %r' % (d0, b, k, got2, exp_len2, sorted(pool.elements(), key=repr))
             elif op == 'subquery':
                 if base is not None and proj is None and a > 0:
                     sub = q.limit(a, offset=b) if case['flag'] else q[b:b + a]
@@ -362,6 +371,10 @@ def check_case(ctx, case):
             elif op == 'delete':
                 if proj is None:
                     q0, d0, _ = build_query(case, classes, env, order=False)
+                    if case['flag']:
+                        # the same queries are executed before the delete as well: their cached results must not survive it
+                        q0[:]
+                        select(x.id for x in cls)[:]
                     try:
                         cnt = q0.delete(bulk=True)
                     except Exception as e:
@@ -376,6 +389,12 @@ def check_case(ctx, case):
                         if left != exp_left or cnt != len(R):
                             msg = '%s.delete(bulk=True) reported %r rows and left ids %r; the query selects ids %r, so %r should remain' % (
                                 d0, cnt, left, sorted(o['id'] for o in R), exp_left)
+                        if msg is None:
+                            again = norm(q0[:])
+                            ids_after = sorted(select(x.id for x in cls)[:])
+                            if again or ids_after != exp_left:
+                                msg = ('after %s.delete(bulk=True) in the same session the query itself returns %r (expected nothing) and '
+                                       'select(x.id for x in %s) returns %r (expected %r)' % (d0, again, ent, ids_after, exp_left))
                     from pony.orm import rollback
                     rollback()
     except Exception as e:
